@@ -35,6 +35,9 @@ def _mk(spec):
     if kind == "logix":
         device.lookup_reset()
         return logix.Logix(instance_id=1).parser      # the class-level service parser (Object.parser)
+    if kind == "cm":
+        device.lookup_reset()
+        return device.Connection_Manager(instance_id=1).parser
     raise ValueError(kind)
 
 
@@ -84,6 +87,18 @@ def library_jobs(vectors):
             jobs.append(("logix:" + k, ("logix", None), b))
         elif k == "frame" and len(b) < 90:
             jobs.append(("enip_machine", ("cls", "enip_machine"), b))
+            f = v["f"]
+            pay = bytes(bytearray(f["payload"]))
+            if f["kind"] in ("rr", "unit") and len(pay) < 70:
+                jobs.append(("send_data", ("cls", "send_data"), pay))          # interface, timeout, CPF with its address / data items
+                jobs.append(("CPF", ("cls", "CPF"), pay[6:]))
+            elif f["kind"] in ("identity", "services"):
+                jobs.append(("CPF:" + f["kind"], ("cls", "CPF"), pay))           # identity_object / communications_service items
+            elif f["kind"] == "register":
+                jobs.append(("register", ("cls", "register"), pay))
+        elif k == "fwd" and not v["large"]:
+            jobs.append(("forward_open", ("cm", None), b))
+            jobs.append(("forward_close", ("cm", None), bytes(bytearray(v["close"]))))
     return jobs
 
 
@@ -132,7 +147,7 @@ def main(ctx):
     ev.sample({"instance": insts[len(insts) // 2]["i"], "inputs": inputs[40:44], "expected_done_consumed_terminal_runs": insts[len(insts) // 2]["res"][40:44]})
     # V: library machines under every limit, laws checked by TLC
     vectors = []
-    for w in ("epath", "status", "typed", "logix", "ucsend", "frames"):
+    for w in ("epath", "status", "typed", "logix", "ucsend", "frames", "fwd"):
         cfgw = os.path.join(wd, "wire_%s.cfg" % w)
         tlc.write_cfg(cfgw, ["INIT WInit", "NEXT WNext", "CHECK_DEADLOCK FALSE", "CONSTANTS", ' Which = "%s"' % w, " Deep = FALSE"])
         r2 = tlc.run("MC_Wire", cfgw, spec_dir=wd, timeout=1700, workers=4)
@@ -142,6 +157,13 @@ def main(ctx):
     ljobs = library_jobs(vectors)
     runs = [x for r in core.pmap(_lib_runs, ljobs, chunksize=4) for x in r]
     lines = [x for x in runs if "build" not in x]
+    nobuild = sorted(set(x["m"] for x in runs if "build" in x))
+    if nobuild:
+        ctx.machinery.append("library machines could not be built: %s" % nobuild)
+    bym = {}
+    for x in lines:
+        bym[x["m"].split(":")[0]] = bym.get(x["m"].split(":")[0], 0) + 1
+    ev.extra["library_runs_by_machine"] = bym
     fd, path = tempfile.mkstemp(prefix="auto_", suffix=".ndjson")
     with os.fdopen(fd, "w") as f:
         for x in lines:
